@@ -86,6 +86,8 @@ def enumerate_cases(tier):
         yield case
     for case in trickle_cases():
         yield case
+    for case in stall_cases():
+        yield case
     for case in _controller_cases():
         yield case
     for active, ka, pka, idle in itertools.product((False, True), KEEPALIVES, KEEPALIVES, IDLES):
@@ -209,8 +211,13 @@ def execute_slowlink(case):
 
 
 def trickle_cases():
-    for active, idle, pieces in itertools.product((False, True), (3, 10), (4, 8)):
-        yield {'kind': 'trickle-in', 'active': active, 'idle': idle, 'pieces': pieces, 'size': 4000}
+    for active, idle, pieces, tls in itertools.product((False, True), (3, 10), (4, 8), (False, True)):
+        yield {'kind': 'trickle-in', 'active': active, 'idle': idle, 'pieces': pieces, 'size': 4000, 'tls': tls}
+
+
+def stall_cases():
+    for active, idle, ka in itertools.product((False, True), (3, 10), (0, 1, 2)):
+        yield {'kind': 'stall', 'active': active, 'idle': idle, 'keepalive': ka, 'size': 60000}
 
 
 def execute_trickle(case):
@@ -221,19 +228,26 @@ def execute_trickle(case):
     out = Outcome()
     active = bool(case['active'])
     idle, pieces, size = int(case['idle']), int(case['pieces']), int(case['size'])
-    cfg = tw.make_config('dtn://real/', keepalive_time=0, idle_time=idle)
+    tls = bool(case.get('tls'))
+    # under TLS the whole segment is one TLS record of the peer: the TLS layer hands nothing over before its last piece
+    script = {'handshake': 'ok', 'peer_cert_der': None, 'record_lens': []}
+    cfg = tw.make_config('dtn://real/', keepalive_time=0, idle_time=idle, tls_script=script if tls else None, tls_enable=tls,
+                         require_host_authn=False, require_node_authn=False)
     world = tw.World(cfg, scripted=True, real_is_passive=not active)
     end = world.real
     hdl = end.hdl
     world.settle()
-    world.peer_send(r.encode({'t': 'CH', 'magic': r.MAGIC.hex(), 'version': 4, 'flags': 0}))
+    world.peer_send(r.encode({'t': 'CH', 'magic': r.MAGIC.hex(), 'version': 4, 'flags': r.CH_CAN_TLS if tls else 0}))
     world.settle()
     world.peer_send(r.encode({'t': 'SESS_INIT', 'keepalive': 0, 'segment_mru': 1000, 'transfer_mru': 2 ** 40, 'nodeid': 'dtn://peer/', 'ext': []}))
     world.settle()
-    if hdl._state != 'established':
-        out.fail('not-established', 'handshake ended in state %s' % hdl._state)
+    if hdl._state != 'established' or (tls and not tw.dbuscall(end.ctx, hdl, 'is_secure')):
+        out.fail('not-established', 'handshake ended in state %s (tls %s)' % (hdl._state, tls))
         return out
     msg = r.encode({'t': 'XFER_SEGMENT', 'flags': 3, 'id': 5, 'ext': [r.transfer_length_ext(size)], 'data': s9.content(size, 3).hex()})
+    if tls:
+        script['record_lens'].append(len(msg))
+        out.label('trickle-in-tls-record')
     step = (len(msg) + pieces - 1) // pieces
     gap_ms = idle * 400
     last_in = simloop.CLOCK.now_ms
@@ -266,6 +280,71 @@ def execute_trickle(case):
     return out
 
 
+def execute_stall(case):
+    ''' The peer stops reading in the middle of the endpoint's bundle and says nothing: once the socket takes no more
+    octets there is no traffic in either direction (messages piling up in the endpoint's own buffers are not traffic).
+    One idle time later the endpoint starts an idle termination, and a further idle time later - its SESS_TERM cannot
+    leave either - it closes. '''
+    from vlib import tcpcl_world as tw, ref9174 as r, strat9174 as s9, simloop
+    import dbus
+    out = Outcome()
+    active = bool(case['active'])
+    idle, ka, size = int(case['idle']), int(case['keepalive']), int(case['size'])
+    cfg = tw.make_config('dtn://real/', keepalive_time=ka, idle_time=idle, segment_size_tx_initial=100000)
+    cap = 3000
+    world = tw.World(cfg, scripted=True, real_is_passive=not active, cap_ab=cap if active else None, cap_ba=None if active else cap)
+    end = world.real
+    hdl = end.hdl
+    world.settle()
+    world.peer_send(r.encode({'t': 'CH', 'magic': r.MAGIC.hex(), 'version': 4, 'flags': 0}))
+    world.settle()
+    del world.rx_pipe.readable[:]
+    world.settle()
+    world.peer_send(r.encode({'t': 'SESS_INIT', 'keepalive': ka, 'segment_mru': 100000, 'transfer_mru': 2 ** 40, 'nodeid': 'dtn://peer/', 'ext': []}))
+    world.settle()
+    del world.rx_pipe.readable[:]
+    world.settle()
+    if hdl._state != 'established':
+        out.fail('not-established', 'handshake ended in state %s' % hdl._state)
+        return out
+    end.call('send_bundle_data', dbus.ByteArray(s9.content(size, 7)))
+    world.settle()
+    # the peer reads nothing from here on: the pipe fills up and the socket takes no more
+    written = len(world.rx_pipe.log)
+    stalled_at = simloop.CLOCK.now_ms
+    term_at = closed_at = None
+    for _ in range(4 * idle * 10 + 50):
+        _advance(world, 100)
+        if len(world.rx_pipe.log) != written:
+            # (octets still went into the socket: traffic)
+            written = len(world.rx_pipe.log)
+            stalled_at = simloop.CLOCK.now_ms
+        if term_at is None and hdl._in_term:
+            term_at = simloop.CLOCK.now_ms
+        if end.sock.closed:
+            closed_at = simloop.CLOCK.now_ms
+            break
+    desc = 'idle time %d s, keepalive %d s, the socket took its last octet at %d ms' % (idle, ka, stalled_at)
+    if term_at is None and closed_at is None:
+        out.fail('stalled-session-never-idles-out', 'no octet moved in either direction for %d ms and the endpoint neither started an idle '
+                 'termination nor closed (%s; %d octets wait in its message buffer)'
+                 % (simloop.CLOCK.now_ms - stalled_at, desc, hdl.send_buffer_used()))
+    else:
+        first = term_at if term_at is not None else closed_at
+        if first - stalled_at < idle * 1000:
+            out.fail('idle-termination-early', 'termination started %d ms after the last traffic (%s)' % (first - stalled_at, desc))
+        elif first - stalled_at > idle * 1000 + 200:
+            out.fail('idle-termination-late', 'termination started %d ms after the last traffic (%s)' % (first - stalled_at, desc))
+        if closed_at is None:
+            out.fail('terminating-endpoint-never-closes', 'the endpoint is terminating since %d ms, nothing moves, and it has not closed (%s)'
+                     % (simloop.CLOCK.now_ms - first, desc))
+    for esc in world.escapes():
+        out.fail('escape:%s@%s' % (esc.exc_type, esc.frame), 'exception escaped an event-loop callback: %s: %s' % (esc.exc_type, esc.exc_msg[:120]))
+    out.nontrivial = True
+    out.label('stall', 'stall-keepalive:%d' % ka)
+    return out
+
+
 def _advance(world, ms):
     ''' Let virtual time pass, firing the endpoint's timers in order. '''
     from vlib import simloop
@@ -285,6 +364,8 @@ def execute(case):
         return execute_slowlink(case)
     if case.get('kind') == 'trickle-in':
         return execute_trickle(case)
+    if case.get('kind') == 'stall':
+        return execute_stall(case)
     from vlib import tcpcl_world as tw, ref9174 as r, strat9174 as s9, simloop
     import dbus
     out = Outcome()
